@@ -106,6 +106,7 @@ def corruptions():
         lambda e: e["res"]["view"]["blocks_alt"].__setitem__("n", 2))
     add("sr: a second read differs", "sr", ["C09"], op_is("parse", kind="sr"), lambda e: e["res"]["view"].__setitem__("again", False))
     add("sr: a fresh parse read in another order differs", "sr", ["C09"], op_is("parse", kind="sr"), lambda e: e["res"].__setitem__("fresh_same", False))
+    add("sr: a clone of the parsed value differs from it", "sr", ["C09"], op_is("parse", kind="sr"), lambda e: e["res"].__setitem__("clone_same", False))
     add("bye: last() of the source iterator", "bye", ["C04", "C09"], op_is("parse", kind="bye"),
         lambda e: e["res"]["view"]["ssrcs_alt"].__setitem__("last", []))
     add("bye: unchecked write returns another size", "bye", ["C06", "C07", "C20"], op_is("write_unchecked"),
